@@ -47,6 +47,9 @@ def run(ctx):
         triples.append((l, stop, k % 5 == 0))
     sl = splitline_corr.run(triples)
     dis = [d for ok, d in sl if not ok]
+    # ---- Leg C (i'): key bookkeeping of string_replace_map, model vs implementation
+    rml = splitline_corr.rm_lines(ctx.rng, ctx.n(400, 12000))
+    rmd = splitline_corr.run_replace_map(rml)
     # ---- Leg C (ii): engine model vs implementation on whole programs
     import engine_corr
     cc = []
@@ -58,7 +61,8 @@ def run(ctx):
     ec = engine_corr.corr_cases(cc)
     corr = dict(cases=len(triples) + ec["cases"], distinct=len(set(l for l, _, _ in triples)) + ec["distinct"],
                 splitline_cases=len(triples), engine=ec and {k: v for k, v in ec.items() if k != "disagreements"},
-                disagreements=dis[:20] + ec["disagreements"],
+                replace_map_cases=len(rml),
+                disagreements=dis[:20] + rmd[:10] + ec["disagreements"],
                 samples=[dict(line=triples[7][0], stop=triples[7][1], lower=triples[7][2])])
     # ---- Leg E: tokens(str(parse(layout(P)))) == tokens(P)
     jobs = []
